@@ -101,8 +101,13 @@ pub fn opts_string(o: &[bool; 5]) -> String {
 /// [ignore_adler32, ignore_crc, ignore_text_chunk, ignore_iccp_chunk, skip_ancillary_crc_failures]
 pub fn decode_options(o: &[bool; 5]) -> png::DecodeOptions {
     let mut d = png::DecodeOptions::default();
-    d.set_ignore_adler32(o[0]);
-    d.set_ignore_crc(o[1]);
+    if o[0] == o[1] {
+        // the combined setter where it can express the pair
+        d.set_ignore_checksums(o[0]);
+    } else {
+        d.set_ignore_adler32(o[0]);
+        d.set_ignore_crc(o[1]);
+    }
     d.set_ignore_text_chunk(o[2]);
     d.set_ignore_iccp_chunk(o[3]);
     d.set_skip_ancillary_crc_failures(o[4]);
@@ -110,3 +115,33 @@ pub fn decode_options(o: &[bool; 5]) -> png::DecodeOptions {
 }
 
 pub const DEFAULT_OPTS: [bool; 5] = [true, false, false, false, true];
+
+/// can this option set be installed through the public setters of `Decoder` (`ignore_checksums` sets both checksum flags to
+/// the same value; `skip_ancillary_crc_failures` has no setter there and keeps its default `true`)?
+pub fn setters_representable(o: &[bool; 5]) -> bool {
+    o[4] && (o[0] == o[1] || (o[0] && !o[1]))
+}
+
+/// the same options as `decode_options(o)`, installed on a `Decoder::new(..)` through `Decoder::ignore_checksums`,
+/// `set_ignore_text_chunk`, `set_ignore_iccp_chunk` (requires `setters_representable(o)`)
+pub fn apply_decoder_setters<R: std::io::BufRead + std::io::Seek>(dec: &mut png::Decoder<R>, o: &[bool; 5]) {
+    if o[0] == o[1] {
+        dec.ignore_checksums(o[0]);
+    }
+    dec.set_ignore_text_chunk(o[2]);
+    dec.set_ignore_iccp_chunk(o[3]);
+}
+
+/// `StreamingDecoder::new()` with the options installed through its own setters; `None` if `set_ignore_adler32` refused
+/// (it must not: nothing has been decompressed yet) or the getter does not report the value that was set
+pub fn streaming_via_setters(o: &[bool; 5]) -> Option<png::StreamingDecoder> {
+    let mut d = png::StreamingDecoder::new();
+    if !d.set_ignore_adler32(o[0]) || d.ignore_adler32() != o[0] {
+        return None;
+    }
+    d.set_ignore_crc(o[1]);
+    d.set_ignore_text_chunk(o[2]);
+    d.set_ignore_iccp_chunk(o[3]);
+    d.set_skip_ancillary_crc_failures(o[4]);
+    Some(d)
+}
